@@ -375,3 +375,21 @@ package lower
 //@   at return assert [le] lerr == nil && rerr == nil && e.Op == parser.TokenLessEqual && result1 ==> (result0 <==> lv <= rv)
 //@   at return assert [gt] lerr == nil && rerr == nil && e.Op == parser.TokenGreater && result1 ==> (result0 <==> lv > rv)
 //@   at return assert [ge] lerr == nil && rerr == nil && e.Op == parser.TokenGreaterEqual && result1 ==> (result0 <==> lv >= rv)
+
+// ---- scalar constant-expression initialisers of module-scope variables are kept (C01, C09) --------
+//
+// `var<private> p: i32 = -1;`, `= C;`, `= 1 + 2;`: an initialiser that the
+// module-scope constant evaluators can evaluate becomes the variable's initial
+// value (it is not dropped, which would zero-initialise the variable).
+//
+//@ func (*Lowerer).lowerGlobalVarInit
+//@   mode bv
+//@   tags C01 C09
+//@   at (*Lowerer).lowerGlobalVarConstExprInit assert [non-literal-goes-to-evaluator] arg2 == typeHandle && arg3 == init
+//
+//@ func (*Lowerer).lowerGlobalVarConstExprInit
+//@   mode bv
+//@   tags C01 C09
+//@   at return assert [int-expression-kept] isScalar && err == nil && st.Kind != ir.ScalarBool ==> result1 == nil
+//@   at return assert [float-expression-kept] isScalar && ferr == nil && st.Kind == ir.ScalarFloat ==> result1 == nil
+//@   at append assert [typed] arg1[0].Type == typeHandle && is(arg1[0].Value, ir.ScalarValue)
